@@ -36,12 +36,70 @@ pub struct Cell {
     /// how many times the five records are logged (shared-pipe stress)
     #[serde(default)]
     pub repeat: usize,
+    /// a sixth record whose message is an argument-free literal (`info!("...")`: `Arguments::as_str()` is `Some`)
+    #[serde(default)]
+    pub literal: Option<u8>,
+}
+
+macro_rules! x16 {
+    ($s:expr) => {
+        concat!($s, $s, $s, $s, $s, $s, $s, $s, $s, $s, $s, $s, $s, $s, $s, $s)
+    };
+}
+macro_rules! lit0 {
+    () => {
+        "plain literal message"
+    };
+}
+macro_rules! lit1 {
+    () => {
+        concat!("first line\n", x16!(x16!(x16!("x"))), "|tail")
+    };
+}
+macro_rules! lit2 {
+    () => {
+        concat!(x16!(x16!(x16!("ab"))), x16!(x16!("c")), "|end of a long single line")
+    };
+}
+macro_rules! lit3 {
+    () => {
+        ""
+    };
+}
+macro_rules! lit4 {
+    () => {
+        concat!(x16!(x16!("é")), "\n", x16!(x16!(x16!("漢"))), "\n", x16!(x16!("z")))
+    };
+}
+pub const LITERALS: [&str; 5] = [lit0!(), lit1!(), lit2!(), lit3!(), lit4!()];
+
+fn with_literal_record<R>(k: u8, f: impl FnOnce(&log::Record) -> R) -> R {
+    let b = |args: std::fmt::Arguments| -> R {
+        debug_assert!(args.as_str().is_some());
+        f(&log::Record::builder().args(args).level(log::Level::Info).target("app::mod").module_path(Some("m")).line(Some(3)).build())
+    };
+    match k % 5 {
+        0 => b(format_args!(lit0!())),
+        1 => b(format_args!(lit1!())),
+        2 => b(format_args!(lit2!())),
+        3 => b(format_args!(lit3!())),
+        _ => b(format_args!(lit4!())),
+    }
 }
 
 fn records() -> Vec<Rec> {
     (0..5u8)
         .map(|l| Rec { level: l, msg: vec![format!("msg{} é", l)], target: "app::mod".into(), module: Some("m".into()), file: None, line: Some(3), mdc: vec![] })
         .collect()
+}
+
+/// What the child logs through the target appender, in order.
+fn records_of(cell: &Cell) -> Vec<Rec> {
+    let mut v = records();
+    if let Some(k) = cell.literal {
+        v.push(Rec { level: 2, msg: vec![LITERALS[k as usize % 5].to_string()], target: "app::mod".into(), module: Some("m".into()), file: None, line: Some(3), mdc: vec![] });
+    }
+    v
 }
 
 pub fn child_main(args: &[String]) -> i32 {
@@ -67,6 +125,11 @@ pub fn child_main(args: &[String]) -> i32 {
             if with_rec(&r, |rec| app.append(rec)).is_err() {
                 return 3;
             }
+        }
+    }
+    if let Some(k) = cell.literal {
+        if with_literal_record(k, |rec| app.append(rec)).is_err() {
+            return 3;
         }
     }
     if let Some(o) = other {
@@ -323,12 +386,13 @@ pub fn check_cell(tmp: &Path, cell: &Cell, obs: &mut Obs) -> CaseResult {
     let (target_bytes, other_bytes, target_tty) = if cell.target_stderr { (&run.stderr, &run.stdout, cell.stderr_tty) } else { (&run.stdout, &run.stderr, cell.stdout_tty) };
     let cls = format!("{}:{}", env_class(cell), if target_tty { "tty" } else { "pipe" });
     let env = Env { thread_name: "main".into(), debug_build: cfg!(debug_assertions), now_secs: 0 };
-    let expected: String = records().iter().map(|r| render(&cell.pat, r, &env)).collect();
+    let expected: String = records_of(cell).iter().map(|r| render(&cell.pat, r, &env)).collect();
     if cell.also_other {
         // the second appender (unrestricted) owns the other stream: its colour decision follows ITS stream
         let other_tty = if cell.target_stderr { cell.stdout_tty } else { cell.stderr_tty };
         let (text, seqs) = strip_sgr(other_bytes).map_err(|e| Failure { sig: "C18:malformed-escape".into(), msg: format!("{} in {:?}", e, String::from_utf8_lossy(other_bytes)) })?;
-        ensure!(text == expected.as_bytes(), "C18:text-differs", "second appender (other stream, terminal={}): {:?}, expected {:?}", other_tty, String::from_utf8_lossy(&text), expected);
+        let expected_other: String = records().iter().map(|r| render(&cell.pat, r, &env)).collect();
+        ensure!(text == expected_other.as_bytes(), "C18:text-differs", "second appender (other stream, terminal={}): {:?}, expected {:?}", other_tty, String::from_utf8_lossy(&text), expected_other);
         let (e1, e2) = (colour_enabled(cell, other_tty, false), colour_enabled(cell, other_tty, true));
         if e1 == e2 {
             if !e1 {
@@ -365,6 +429,42 @@ pub fn check_cell(tmp: &Path, cell: &Cell, obs: &mut Obs) -> CaseResult {
             }
         } else {
             obs.class("env-value-0-ambiguous(either accepted)");
+        }
+        // with colour on, every style request of the pattern arrives as one sequence, in its place between the text
+        if e1 && e2 {
+            let mut got: Vec<Item> = vec![];
+            let mut i = 0;
+            let b = target_bytes;
+            let mut si = 0;
+            let mut text_run: Vec<u8> = vec![];
+            while i < b.len() {
+                if b[i] == 0x1b {
+                    let seq = &seqs[si];
+                    si += 1;
+                    i += seq.len();
+                    if !text_run.is_empty() {
+                        got.push(Item::Text(String::from_utf8_lossy(&text_run).to_string()));
+                        text_run.clear();
+                    }
+                    got.push(if seq.as_slice() == b"\x1b[0m" || seq.as_slice() == b"\x1b[m" { Item::StyleOff } else { Item::StyleOn });
+                } else {
+                    text_run.push(b[i]);
+                    i += 1;
+                }
+            }
+            if !text_run.is_empty() {
+                got.push(Item::Text(String::from_utf8_lossy(&text_run).to_string()));
+            }
+            let mut want: Vec<Item> = vec![];
+            for r in records_of(cell).iter() {
+                for it in render_items(&cell.pat, r, &env) {
+                    match (want.last_mut(), &it) {
+                        (Some(Item::Text(a)), Item::Text(t)) => a.push_str(t),
+                        _ => want.push(it),
+                    }
+                }
+            }
+            ensure!(got == want, "C18:style-sequence", "colour is enabled: the stream carries {:?}; the pattern asks for {:?}", got, want);
         }
         // every styled stretch is followed by a reset
         let mut styled = false;
@@ -442,7 +542,7 @@ fn cell_at(idx: usize, pat: Pat) -> Cell {
     let tg = i % 2;
     i /= 2;
     let to = i % 2;
-    Cell { no_color: v(nc), clicolor: v(cc), clicolor_force: v(cf), stdout_tty: so == 1, stderr_tty: se == 1, target_stderr: tg == 1, tty_only: to == 1, pat, also_other: false, repeat: 1 }
+    Cell { no_color: v(nc), clicolor: v(cc), clicolor_force: v(cf), stdout_tty: so == 1, stderr_tty: se == 1, target_stderr: tg == 1, tty_only: to == 1, pat, also_other: false, repeat: 1, literal: None }
 }
 
 pub const CELLS: usize = 27 * 2 * 2 * 2 * 2;
@@ -578,7 +678,7 @@ pub fn check_shared(tmp: &Path, c: &Shared, obs: &mut Obs) -> CaseResult {
         Node::Fmt { kind: Kind::Highlight(vec![Node::Fmt { kind: Kind::Message, long: false, spec: None }]), long: false, spec: None },
         Node::Fmt { kind: Kind::Newline, long: false, spec: None },
     ];
-    let cell = Cell { no_color: None, clicolor: None, clicolor_force: Some("1".into()), stdout_tty: false, stderr_tty: false, target_stderr: true, tty_only: false, pat, also_other: false, repeat: c.repeat };
+    let cell = Cell { no_color: None, clicolor: None, clicolor_force: Some("1".into()), stdout_tty: false, stderr_tty: false, target_stderr: true, tty_only: false, pat, also_other: false, repeat: c.repeat, literal: None };
     let file = dir.join("cell.json");
     std::fs::write(&file, serde_json::to_string(&cell).unwrap()).unwrap();
     let mut fds = [0 as libc::c_int; 2];
@@ -623,6 +723,8 @@ pub fn run(run: &Run) {
     }
     let t1 = tmp.clone();
     run.run_replays::<Cell>("matrix", &move |c: &Cell, o: &mut Obs| check_cell(&t1, c, o));
+    let t1b = tmp.clone();
+    run.run_replays::<Cell>("literal-args", &move |c: &Cell, o: &mut Obs| check_cell(&t1b, c, o));
     run.run_replays::<StyleCase>("styles", &check_style);
     // exhaustive matrix: every cell once per pass, with a generated pattern per cell (workers split the cells)
     let passes = run.tier.pick(2usize, 20);
@@ -651,6 +753,28 @@ pub fn run(run: &Run) {
     }
     if ok {
         run.exhaustive("matrix NO_COLOR x CLICOLOR x CLICOLOR_FORCE in {unset,\"0\",\"1\"} x stdout in {pty,pipe} x stderr in {pty,pipe} x target in {stdout,stderr} x tty_only in {false,true} = 432 cells, each in its own child process");
+    }
+    // argument-free literal messages (long, multi-line, multi-byte, empty) straight through `{m}`: 60 children
+    {
+        let m = |spec: Option<Spec>| Node::Fmt { kind: Kind::Message, long: false, spec };
+        let nl = Node::Fmt { kind: Kind::Newline, long: false, spec: None };
+        let pats: Vec<Pat> = vec![vec![m(None)], vec![m(None), nl.clone()], vec![Node::Fmt { kind: Kind::Highlight(vec![m(None)]), long: false, spec: None }, nl.clone()]];
+        let mut idx = 0u32;
+        for k in 0..5u8 {
+            for target_stderr in [false, true] {
+                for tty in [false, true] {
+                    for pat in &pats {
+                        idx += 1;
+                        if idx % run.worker.1 != run.worker.0 {
+                            continue;
+                        }
+                        let cell = Cell { no_color: None, clicolor: None, clicolor_force: if k % 2 == 0 { Some("1".into()) } else { None }, stdout_tty: tty && !target_stderr, stderr_tty: tty && target_stderr, target_stderr, tty_only: false, pat: pat.clone(), also_other: false, repeat: 1, literal: Some(k) };
+                        let t3 = tmp.clone();
+                        run.eval_one("literal-args", &cell, &move |c: &Cell, o: &mut Obs| check_cell(&t3, c, o));
+                    }
+                }
+            }
+        }
     }
     if run.worker.0 == 0 {
         let mut ok = true;
@@ -684,7 +808,7 @@ pub fn run(run: &Run) {
 
 pub fn replay(part: &str, case: serde_json::Value) -> Option<CaseResult> {
     match part {
-        "matrix" => {
+        "matrix" | "literal-args" => {
             let tmp = std::env::temp_dir().join(format!("lv-replay-{}", std::process::id()));
             std::fs::create_dir_all(&tmp).ok()?;
             let r = check_cell(&tmp, &serde_json::from_value(case).ok()?, &mut Obs::default());
@@ -707,7 +831,7 @@ pub fn replay(part: &str, case: serde_json::Value) -> Option<CaseResult> {
 pub fn meta() -> EvidenceMeta {
     EvidenceMeta {
         level: "exploration",
-        rule: "matrix (exhaustive every run): NO_COLOR, CLICOLOR, CLICOLOR_FORCE each in {unset,\"0\",\"1\"} x stdout in {pty,pipe} x stderr in {pty,pipe} x target x tty_only = 432 child processes, the parent allocates raw-mode ptys with openpty and reads both streams to EOF; per cell a generated pattern (a highlight group around generated structure, width specs around highlights, nested groups) and five records, one per level; oracle: nothing on the non-target stream; nothing on the target if tty_only and the target is not a terminal, else the reference rendering of the five records after stripping escape sequences; escape sequences (each matching ESC [ digits(;digits)* m) present iff colour is enabled by the statement's cascade (cells with NO_COLOR=\"0\" or CLICOLOR_FORCE=\"0\" accept both readings), last sequence a reset. styles (exhaustive): AnsiWriter<Vec<u8>>::set_style for all 243 styles after a previous style: exactly one well-formed SGR sequence which a harness SGR interpreter maps from any prior state to exactly the requested attributes; random style pairs and write/set_style interleavings (bytes unchanged). non-trivial = a cell where tty-ness and the colour decision disagree or tty_only meets a pipe / NO_COLOR; a style with all three attributes set".into(),
+        rule: "matrix (exhaustive every run): NO_COLOR, CLICOLOR, CLICOLOR_FORCE each in {unset,\"0\",\"1\"} x stdout in {pty,pipe} x stderr in {pty,pipe} x target x tty_only = 432 child processes, the parent allocates raw-mode ptys with openpty and reads both streams to EOF; per cell a generated pattern (a highlight group around generated structure, width specs around highlights, nested groups) and five records, one per level; oracle: nothing on the non-target stream; nothing on the target if tty_only and the target is not a terminal, else the reference rendering of the five records after stripping escape sequences; escape sequences (each matching ESC [ digits(;digits)* m) present iff colour is enabled, and then exactly one per style request of the pattern, in its place between the text pieces by the statement's cascade (cells with NO_COLOR=\"0\" or CLICOLOR_FORCE=\"0\" accept both readings), last sequence a reset. literal-args (exhaustive, 60 children): a sixth record whose message is an argument-free literal (short, 4 kB after a line break, 9 kB single line, empty, multi-byte) x target x pty/pipe x {m} / {m}{n} / {h({m})}{n}; styles (exhaustive): AnsiWriter<Vec<u8>>::set_style for all 243 styles after a previous style: exactly one well-formed SGR sequence which a harness SGR interpreter maps from any prior state to exactly the requested attributes; random style pairs and write/set_style interleavings (bytes unchanged). non-trivial = a cell where tty-ness and the colour decision disagree or tty_only meets a pipe / NO_COLOR; a style with all three attributes set".into(),
         assumptions: vec!["highlight colours themselves are not asserted (documentation and code disagree)".into(), "ptys from libc::openpty; without them the check exits 2, it does not pass".into()],
         mutants_caught: vec![],
     }
